@@ -306,6 +306,25 @@ def run(ctx):
                 ctx.check((not const_style) or synthetic, "STYLE", "C05:STYLE-KEPT:%s" % g.npath.split("::")[-1], "scalar events keep the style of the text they carry (constant style only for the synthetic empty scalar)",
                           "%s builds a scalar event with the constant style %s around non-constant text (`%s`): the quoting / block style of the document's scalar is lost, so `!O \"null\"` becomes a null payload" % (g.npath, st.split("::")[-1], vl[:60]), config, ctx.where(g, b))
         ctx.floor("STYLE.scalar-event-sites", nsc, 5, config)
+        # TAG-KEPT: likewise the tag.  A scalar event built around text of the document either keeps that scalar's own tag or has
+        # none; a *constant* core tag put on it (`!!str` on the re-emitted payload of `!Variant payload`) changes what the text
+        # is: a `!!str` scalar is never null, so `!O ~` would be Some("~") while `{O: ~}` is None.
+        ntg = 0
+        for g in sorted(fx.fns.values(), key=lambda g: g.npath):
+            if not g.file.endswith(("src/de.rs", "src/live_events.rs", "src/lib.rs")) or g.d.get("impl_trait") == "std::clone::Clone":
+                continue
+            for b, i, adt, var, fl, ops, s_ in aggregates(g):
+                if adt != "de::Ev" or var != "Scalar" or "tag" not in fl:
+                    continue
+                ntg += 1
+                with g.deep():
+                    tg = render(g.sym_operand(s_["rv"]["ops"][fl.index("tag")]))
+                    vl = render(g.sym_operand(s_["rv"]["ops"][fl.index("value")]))
+                const_tag = tg.startswith("tags::SfTag::") and not tg.startswith("tags::SfTag::None")
+                synthetic = vl in ("std::borrow::Cow::Borrowed{''}", "into(new())", "std::borrow::Cow::Owned{new()}", "into('')")
+                ctx.check((not const_tag) or synthetic, "STYLE", "C05:TAG-KEPT:%s" % g.npath.split("::")[-1], "scalar events keep the tag of the scalar they carry, or have none",
+                          "%s builds a scalar event with the constant tag %s around text of the document (`%s`): the payload of `!Variant payload` is then read as a `!!str` scalar — `!O ~` gives Some(\"~\") and `!U ~` is rejected, unlike `{O: ~}` / `{U: ~}`" % (g.npath, tg.split("::")[-1], vl[:60]), config, ctx.where(g, b))
+        ctx.floor("STYLE.scalar-event-tag-sites", ntg, 5, config)
         # KIND: a variant's payload is requested by its declared kind — struct_variant through deserialize_struct / _map,
         # tuple_variant through deserialize_tuple / _seq — never through the typeless deserialize_any, which follows the
         # document's shape instead (a sequence would then fill a struct variant's fields by position).
